@@ -152,10 +152,11 @@ def offsetRight (rank : Nat) (E I : Arr) : Nat :=
 def strideRight (rank : Nat) (E : Arr) (i : Nat) : Nat :=
   forLoop (right_stride_lo rank E i) (right_stride_hi rank E i) (right_stride_step rank E i) (right_stride_init rank E i)
 
-/-- the fold expression `((ii * strides_[r]) + ... + 0)` over `r = k, k+1, …` (`n` terms), a right fold -/
+/-- the fold expression `((ii * strides_[r]) + ... + 0)` over `r = k, k+1, …` (`n` terms), a right fold; the summand and
+    the initial value are regenerated from layout_stride.hh (`Gen.stride_fold_term`, `Gen.stride_fold_init`) -/
 def dotFrom (S I : Arr) : Nat → Nat → Nat
-  | 0, _ => 0
-  | n+1, r => I r * S r + dotFrom S I n (r+1)
+  | 0, _ => stride_fold_init
+  | n+1, r => stride_fold_term (I r) (S r) + dotFrom S I n (r+1)
 
 /-- `layout_stride::mapping::operator()(ii...)` -/
 def offsetStride (rank : Nat) (S I : Arr) : Nat := dotFrom S I rank 0
@@ -261,8 +262,16 @@ def Md.get? (a : Md) (I : Arr) : Option Int := a.data[a.map.offset I]?
 /-- assignment through the returned reference -/
 def Md.set (a : Md) (I : Arr) (v : Int) : Md := { a with data := a.data.set (a.map.offset I) v }
 
-/-- `mdarray(const mapping_type& m)`: `container_(construct_container(m.required_span_size()))`, value-initialised -/
-def Md.new (m : Mapping) (v : Int := 0) : Md := ⟨m, List.replicate m.requiredSpan v⟩
+/-- a history of element assignments `a(t₁) = v₁; a(t₂) = v₂; …` on one view / array object -/
+def Md.writes (a : Md) : List (List Nat × Int) → Md
+  | [] => a
+  | w :: ws => (a.set (arr w.1) w.2).writes ws
+
+/-- `mdarray(const mapping_type& m[, v][, alloc])`: `container_(construct_container(N[, v]))` resp. `container_(N[, v], a)`,
+    `mapping_(m)`; the element count `N` is what the member initialisers in mdarray.hh say (regenerated:
+    `Gen.mdarray_from_mapping_csize`, a function of `m.required_span_size()` and the number of index tuples) -/
+def Md.new (m : Mapping) (v : Int := 0) : Md :=
+  ⟨m, List.replicate (mdarray_from_mapping_csize m.requiredSpan (mdarraySize m.rank m.ext)) v⟩
 
 /-- `mdarray(const extents&/mapping&, const container_type& c)` (and the `&&`/allocator variants): the container is
     taken as it is; precondition `c.size() >= required_span_size()` -/
